@@ -431,3 +431,72 @@ pub async fn with_timeout<F: core::future::Future>(ms: u64, f: F) -> Option<F::O
         Either::Second(_) => None,
     }
 }
+
+// ---------------------------------------------------------------- fabrics with real credentials
+
+/// Mints one RCAC and two NOCs under it and installs the same fabric (index 1) in
+/// both nodes, as rs-matter/tests/case.rs does. Returns the fabric indices.
+pub fn install_shared_fabric<C: Crypto>(
+    crypto: &C,
+    matter_a: &Matter<'_>,
+    node_a: u64,
+    matter_b: &Matter<'_>,
+    node_b: u64,
+) -> Result<(NonZeroU8, NonZeroU8), Error> {
+    use rs_matter::cert::gen::VALID_FOREVER;
+    use rs_matter::cert::MAX_CERT_TLV_AND_ASN1_LEN;
+    use rs_matter::crypto::{
+        CanonAeadKey, CanonPkcSecretKey, RngCore, SecretKey, SigningSecretKey, AEAD_CANON_KEY_LEN,
+    };
+    use rs_matter::onboard::cac::RcacGenerator;
+    use rs_matter::onboard::noc::NocGenerator;
+
+    const FABRIC_ID: u64 = 1;
+    let mut rcac_buf = [0u8; MAX_CERT_TLV_AND_ASN1_LEN];
+    let mut rcac_gen = RcacGenerator::new(&mut rcac_buf);
+    let (rcac_privkey, rcac) = rcac_gen.generate(crypto, FABRIC_ID, VALID_FOREVER)?;
+    let mut noc_buf = [0u8; MAX_CERT_TLV_AND_ASN1_LEN];
+    let mut noc_generator = NocGenerator::create(rcac_privkey.reference(), rcac, &[], &mut noc_buf)?;
+
+    let mut ipk = CanonAeadKey::new();
+    let mut ipk_bytes = [0u8; AEAD_CANON_KEY_LEN];
+    crypto.rand()?.fill_bytes(&mut ipk_bytes);
+    ipk.load_from_array(&ipk_bytes);
+
+    let mut idx = [NonZeroU8::new(1).unwrap(); 2];
+    for (i, (matter, node)) in [(matter_a, node_a), (matter_b, node_b)].into_iter().enumerate() {
+        let secret_key = crypto.generate_secret_key()?;
+        let mut csr_buf = [0u8; 256];
+        let csr = secret_key.csr(&mut csr_buf)?;
+        let mut secret_key_canon = CanonPkcSecretKey::new();
+        secret_key.write_canon(&mut secret_key_canon)?;
+        let noc = noc_generator.generate(crypto, csr, node, &[], VALID_FOREVER)?;
+        idx[i] = matter.with_state(|state| {
+            state
+                .fabrics
+                .add(
+                    crypto,
+                    secret_key_canon.reference(),
+                    rcac,
+                    noc,
+                    &[],
+                    Some(ipk.reference()),
+                    0xFFF1,
+                    node_a,
+                )
+                .map(|f| f.fab_idx())
+        })?;
+    }
+    Ok((idx[0], idx[1]))
+}
+
+/// (source node as attached to the net, session id, message counter) of a tapped datagram.
+pub fn plain_key(t: &TapEntry) -> Option<(u16, u16, u32)> {
+    use rs_matter::transport::packet::PacketHdr;
+    use rs_matter::utils::storage::ParseBuf;
+    let mut data = t.bytes.clone();
+    let mut pb = ParseBuf::new(data.as_mut_slice());
+    let mut hdr = PacketHdr::new();
+    hdr.decode_plain_hdr(&mut pb).ok()?;
+    Some((t.src, hdr.plain.sess_id, hdr.plain.ctr))
+}
